@@ -48,7 +48,10 @@ func GetSymHash(str string) SymHash {
 func readSymHash(str string) (SymHash, bool) {
 	// make table access goroutine-safe (RLock allow other goroutines to read)
 	lock.RLock()
+	verifTrace("RLock", "")
 	defer lock.RUnlock()
+	defer verifTrace("RUnlock", "")
+	verifTrace("ReadSym", str)
 	symHash, ok := symHashTable[str]
 	return symHash, ok
 }
@@ -56,15 +59,21 @@ func readSymHash(str string) (SymHash, bool) {
 func writeSymHash(symHash SymHash, str string) {
 	// make table access goroutine-safe
 	lock.Lock()
+	verifTrace("Lock", "")
 	defer lock.Unlock()
+	defer verifTrace("Unlock", "")
+	verifTrace("WriteSym", str)
 	symHashTable[str] = symHash
 	// set PanStr object corresponding to created hash
 	// to generate PanStr from SymHash
+	verifTrace("WriteStr", str)
 	strTable[symHash] = NewPanStr(str)
 }
 
 // SymHash2Str gets str literal from symbol hash.
 func SymHash2Str(h SymHash) (PanObject, bool) {
+	defer verifTrace("ReadStrEnd", "")
+	verifTrace("ReadStr", "")
 	strObj, ok := strTable[h]
 	return strObj, ok
 }
